@@ -15,9 +15,11 @@ Hypothesis Hcodec : codec_statement.
 Hypothesis Htotal : compile_total_statement.
 Variable ty : N.
 Variable ver : N.
+Variable zg : bool.
 Hypothesis Hver : 1 <= ver <= 3.
 
-Definition cinv (E : store) (b : builder) : Prop := cgood E /\ Cstk (elang E) (b_stack b).
+Definition cinv (E : store) (b : builder) : Prop :=
+  cgood E /\ Cstk (elang E) (b_stack b) /\ Ginv zg b E /\ Rinv E (b_stack b).
 
 Lemma last_opt_snoc {A} (l : list A) x : last_opt (l ++ [x]) = Some x.
 Proof. clear Hver.
@@ -86,7 +88,8 @@ Proof.
     clear Hc. inversion Hc'; subst b' r; clear Hc'.
     split; [reflexivity|]. split; [|split; [reflexivity|]].
     2:{ unfold cinv, Cstk. cbn [with_stack with_len b_stack Cpost u_node u_last n_trans]. rewrite Hst.
-        cbn [Cpost]. rewrite Hrl, Hrt. intros (A & B & _). split; [exact A|]. split; [|exact I]. intros t []. }
+        cbn [Cpost]. rewrite Hrl, Hrt. intros (A & (B & _) & C & D). split; [exact A|]. split; [split; [|exact I]; intros t []|].
+        split; [exact C|]. unfold Rinv, ftargets in *. cbn [flat_map u_node n_trans] in *. rewrite ?Hrt in D. exact D. }
     inversion Hu as [|? ? Hu1 _]; subst. destruct Hu1 as (U1 & U2 & U3 & U4).
     constructor; cbn [with_stack with_len b_stack b_len lastkey].
     + eapply minv_frame; [..|exact Hm]; reflexivity.
@@ -150,7 +153,7 @@ Proof.
     rewrite Hd0.
     destruct Hs as [Hsh Hu HW Hd HL].
     destruct (fcp_ok E bs (b_stack b) k out 0 Hsh Hu HW) as
-      (st & o2 & Hf & S1 & S2 & S3 & S4 & S5 & S6 & S7 & S8 & S9); auto.
+      (st & o2 & Hf & S1 & S2 & S3 & S4 & S5 & S6 & S7 & S8 & S9 & S10); auto.
     fold p in Hf, S7, S9.
     pose proof (shape_length _ _ Hsh) as Hlst0. pose proof (shape_length _ _ S1) as Hlst.
     assert (Hs1 : sinv E st k (rev acc)).
@@ -169,8 +172,8 @@ Proof.
       apply (f_equal (@rev bool)) in S8. rewrite !rev_app_distr in S8. cbn [rev app] in S8.
       inversion S8. congruence. }
     destruct (compile_from b2 p) as [b3 r3] eqn:Hcf.
-    destruct (compile_from_ok Hcodec Htotal ty ver Hver E b2 k (rev acc) p b3 r3 Hm2 Hs1) as
-      (E' & -> & Hm3 & F1 & F2 & Flen & Fs & Fcase & Ftrim & Fbb & FC); auto.
+    destruct (compile_from_ok Hcodec Htotal ty ver zg Hver E b2 k (rev acc) p b3 r3 Hm2 Hs1) as
+      (E' & -> & Hm3 & F1 & F2 & Flen & Fs & Fcase & Ftrim & Fbb & FC & FGR); auto.
     { cbn [b2 with_len with_stack b_stack]. unfold len, NODE_MAX in *. lia. }
     cbn [b2 with_len with_stack b_stack b_len b_last] in *.
     destruct (skipn_cons_length p bs) as (b1 & r1 & Hsk); [lia|].
@@ -231,12 +234,16 @@ Proof.
       * exact Ftrim.
       * rewrite Hst'eq, app_assoc. apply top_final_suffix.
       * eapply bbytes_frame; [|exact Fbb]. reflexivity.
-    + intros (Hcg & HCs). cbn [with_stack b_stack].
+    + intros (Hcg & HCs & HGi & HRi). cbn [with_stack b_stack].
       destruct (FC o2 Hcg (S9 HCs)) as (Hcg' & HC').
+      assert (HRst : Rinv E st) by (unfold Rinv in *; rewrite S10; exact HRi).
+      destruct (FGR HGi HRst) as (HG' & HR').
       split; [exact Hcg'|]. rewrite Hst'eq. rewrite Hst3, <- Hlenlo in HC'.
       destruct (shape_top _ _ (s_shape _ _ _ _ Fs)) as (lo2 & t2 & Heq2 & Ht2 & Hlo2).
       apply app_inj_tail in Heq2. destruct Heq2 as (<- & <-).
-      eapply add_suffix_C; eauto.
+      split; [eapply add_suffix_C; eauto|]. split; [exact HG'|].
+      rewrite Hst3 in HR'. unfold Rinv in *. cbn [with_stack b_stack]. rewrite app_assoc, (ftargets_app (_ ++ _)), ftargets_suffix, app_nil_r.
+      rewrite ftargets_app in *. exact HR'.
 Qed.
 
 (* ---------- one accepted call ---------- *)
